@@ -49,7 +49,14 @@ Inductive case :=
        (o : op) (inside : bool) (code : Z) (q : req) (post : req)
 (* the concurrent run ended with the Go runtime aborting the process
    (kind 1: "fatal error: concurrent map ...", 2: any other abnormal exit) *)
-| ConcAbort (stable pool : list (str * Z)) (kind : Z).
+| ConcAbort (stable pool : list (str * Z)) (kind : Z)
+(* a history like [Hist] in which every request is the SAME *mux.Message with
+   the same RouteParams object: only its Uri-Path options are replaced between
+   two dispatches.  [p0] is what the RouteParams held before the first dispatch
+   (None: new(RouteParams); Some: what an outer router, whose handler rewrote
+   the Uri-Path and called this router, had written).  Observed RouteParams =
+   the object after ServeCOAP returned. *)
+| Reuse (mws : list (Z * bool)) (p0 : rparams) (steps : list hobs).
 
 (* ---- model side ---- *)
 
@@ -139,6 +146,21 @@ Fixpoint adapt_agrees (st : rstate) (mws : list (Z * bool)) (steps : list hobs) 
       list_eqb ev_eqb mt trace && params_eqb (rp_obs mp) params && adapt_agrees st mws r
   end.
 
+(* one RouteParams object through the whole history: each dispatch is handed
+   what the previous one left (the observed object), Model.serve_into *)
+Definition rp_of (p : rparams) : rp :=
+  match p with None => rp_new | Some (pa, t, v) => mkRp pa t (Some v) end.
+Fixpoint reuse_agrees (st : rstate) (mws : list (Z * bool)) (p : rp) (steps : list hobs) : bool :=
+  match steps with
+  | [] => true
+  | HO o code :: r =>
+      let '(st', res) := apply_op st o in
+      (res_code res =? code) && reuse_agrees st' mws p r
+  | HQ (segs, trace, params) :: r =>
+      let '(mt, mp) := serve_into st mws (order_for st params) segs p in
+      list_eqb ev_eqb mt trace && params_eqb (rp_obs mp) params && reuse_agrees st mws (rp_of params) r
+  end.
+
 (* position of a pattern in the route map *)
 Fixpoint pos_of (m : list (str * route)) (pat : str) (i : nat) : list nat :=
   match m with
@@ -199,6 +221,7 @@ Definition agrees (c : case) : bool :=
       (length (model_routes pool) =? length pool)%nat &&
       forallb (conc_agrees (model_routes stable) (model_routes pool) d1 d2) obs
   | Hist mws steps => hist_agrees init_state mws steps
+  | Reuse mws p0 steps => reuse_agrees init_state mws (rp_of p0) steps
   end.
 
 (* ---- property side: evaluated on the OBSERVED results only ---- *)
@@ -277,6 +300,15 @@ Fixpoint adapt_hist_class (regs : list sroute) (d : option Z) (mws : list (Z * b
       if N.eqb c 0 then adapt_hist_class regs d mws r else c
   end.
 
+Fixpoint reuse_hist_class (regs : list sroute) (d : option Z) (mws : list (Z * bool)) (steps : list hobs) : N :=
+  match steps with
+  | [] => 0%N
+  | HO o code :: r => let '(regs', d') := spec_replay regs d [(o, code)] in reuse_hist_class regs' d' mws r
+  | HQ (segs, trace, params) :: r =>
+      let c := reuse_class regs d mws (filter_path (path_of segs)) trace params in
+      if N.eqb c 0 then reuse_hist_class regs d mws r else c
+  end.
+
 Definition req_class (regs : list sroute) (d : option Z) (q : req) : N :=
   let '(segs, trace, params) := q in dispatch_class regs d [] (filter_path (path_of segs)) trace params.
 
@@ -296,6 +328,7 @@ Definition pclass (c : case) : N :=
   | Conc stable pool d1 d2 obs =>
       first_class (map (conc_class (spec_routes stable) (spec_routes pool) d1 d2) obs)
   | Hist mws steps => hist_class [] (Some 0) mws steps
+  | Reuse mws _ steps => reuse_hist_class [] (Some 0) mws steps
   end.
 
 Definition mismatches (cs : list case) : list N := bad_indices (fun c => negb (agrees c)) cs.
